@@ -31,7 +31,7 @@ type Profile struct {
 var baseWeights = map[string]float64{
 	"new": 8, "newwith": 4, "bnew": 4, "bbatch": 2, "bbatchq": 1, "badd": 2,
 	"rm": 6, "xchg": 10, "assign": 3, "set": 6, "get": 2, "view": 3, "alive": 2,
-	"relset": 5, "relxchg": 3, "relget": 1, "relcycle": 0.6, "layoutcross": 0.05,
+	"relset": 5, "relxchg": 3, "relget": 1, "relcycle": 0.6, "layoutcross": 0.05, "recycledtarget": 0.5,
 	"bxchg": 3, "bsetrel": 2, "brm": 1, "bbig": 0.05,
 	"qscan": 3, "qopen": 1, "creg": 1, "cunreg": 0.4, "cscan": 2,
 	"reset": 0.3, "dumpload": 0.2, "reg": 0.5, "res": 1, "listen": 0.4, "stats": 1, "locked": 0.5,
@@ -57,6 +57,7 @@ func profile(name string) Profile {
 		mul(2, "bxchg", "bsetrel", "bbatchq")
 	case "rel": // C05, C06
 		mul(3, "relset", "relxchg", "bsetrel", "bnew", "rm", "relget")
+		mul(4, "recycledtarget")
 		mul(2, "brm", "reset")
 	case "cache": // C07
 		mul(6, "creg", "cscan")
@@ -584,6 +585,23 @@ func (g *G) illegalOp() bool {
 		}
 		d := sl(g.pick(dead))
 		rel := g.pick(g.relIDs())
+		// prefer a dead entity that alive entities still point to (its relation table survives),
+		// together with their relation component
+		if g.rng.Intn(5) < 3 {
+			for _, s := range al {
+				r := g.relOf(g.maskOf(s))
+				if r < 0 {
+					continue
+				}
+				tg := g.x.w.Relations().Get(g.x.slots[s], g.x.id(r))
+				if !tg.IsZero() && !g.x.w.Alive(tg) {
+					if ts, ok := g.x.rev[tg]; ok {
+						d, rel = sl(ts), r
+						break
+					}
+				}
+			}
+		}
 		switch g.rng.Intn(6) {
 		case 0:
 			g.emit("BNEW", strconv.Itoa(rel), "-", strconv.Itoa(rel), d)
@@ -886,6 +904,38 @@ func (g *G) legalOp(kind string) bool {
 			g.emit("RM", child)
 			g.emit("RM", tgt)
 		}
+	case "recycledtarget":
+		// an entity keeps pointing at a dead target; the next entity created recycles the dead
+		// target's id (the free list is LIFO); the child is then re-targeted to that NEW entity -
+		// same id, other generation - alone or by a batch call
+		rels := g.relIDs()
+		if len(rels) == 0 {
+			return false
+		}
+		rel := g.pick(rels)
+		rt := g.emit("NEW", "-")
+		if !strings.HasPrefix(rt, "e ") {
+			return true
+		}
+		tgt := strings.Fields(rt)[1]
+		rc := g.emit("BNEW", strconv.Itoa(rel), "-", strconv.Itoa(rel), tgt)
+		if !strings.HasPrefix(rc, "e ") {
+			return true
+		}
+		child := strings.Fields(rc)[1]
+		g.emit("RM", tgt)
+		rn := g.emit("NEW", "-")
+		if !strings.HasPrefix(rn, "e ") {
+			return true
+		}
+		tgt2 := strings.Fields(rn)[1]
+		if g.rng.Intn(3) == 0 {
+			g.emit("BSETREL", "0", strconv.Itoa(rel), tgt2, "A", strconv.Itoa(rel))
+		} else {
+			g.emit("RELSET", child, strconv.Itoa(rel), tgt2)
+		}
+		g.emit("RELGET", child, strconv.Itoa(rel))
+		g.emit("VIEW", child)
 	case "layoutcross":
 		// tables parked in a free list while the registry grows across a layout chunk boundary
 		// (16, 32, ...), then re-used: Has/Get with the late IDs must still say "absent"
@@ -1098,6 +1148,30 @@ func (g *G) legalOp(kind string) bool {
 			}
 		}
 	case "res":
+		if g.p.name == "res" && g.nRes > 0 && g.nRes < ecs.MaskTotalBits && g.rng.Intn(60) == 0 {
+			// fill the resource registry to its limit, occupy slots at both ends, reset, look again
+			for g.nRes < ecs.MaskTotalBits {
+				if !strings.HasPrefix(g.emit("RESREG", strconv.Itoa(1000+g.nRes)), "n ") {
+					return true
+				}
+				g.nRes++
+			}
+			g.emit("RESREG", strconv.Itoa(1000+g.nRes)) // one too many
+			picks := []int{0, g.nRes - 1, g.rng.Intn(g.nRes), g.rng.Intn(g.nRes)}
+			for _, i := range picks {
+				if !g.x.w.Resources().Has(g.x.resID(i)) {
+					g.emit("RESADD", strconv.Itoa(i), strconv.Itoa(1+g.rng.Intn(1000)))
+				}
+			}
+			if g.rng.Intn(3) > 0 {
+				g.emit("RESET")
+			}
+			for _, i := range picks {
+				g.emit("RESHAS", strconv.Itoa(i))
+				g.emit("RESGET", strconv.Itoa(i))
+			}
+			return true
+		}
 		if g.nRes < 6 && (g.nRes == 0 || g.rng.Intn(4) == 0) {
 			res := g.emit("RESREG", strconv.Itoa(1000+g.nRes))
 			if strings.HasPrefix(res, "n ") {
